@@ -98,57 +98,62 @@ func checkC07(w *World, r *Report) {
 		"C07.transfer", "create after unlock succeeded, transfer after both", w.Pos(xferS.Instr.Pos()), "success-edge domination", "the steps of the split are not chained on success edges")
 
 	// ---------- C07.guard / writes ----------
+	// the unlock operation may be split into helpers (a checking part that returns an error and an applying part): the
+	// guards are found through error-returning helpers, the stores below the operation
 	ownP, unlP := paramOfType(unlock, tAddr, 0), paramOfType(unlock, tCoins, 0)
-	var lockedCall *ssa.Call
-	for _, s := range cg.Sites[unlock] {
-		if strings.HasSuffix(s.CalleeName(), "ContinuousVestingAccount.LockedCoins") {
-			a := s.Args()
-			if isBlockTime(a[len(a)-1]) {
-				lockedCall, _ = s.Instr.(*ssa.Call)
+	lteSpec := GuardSpec{Name: "amount <= LockedCoins(now)", IsVal: func(v ssa.Value) bool { return v == ssa.Value(unlP) },
+		Edges: func(fn *ssa.Function, bind Bind, isVal func(ssa.Value) bool) []Edge {
+			isLocked := func(v ssa.Value) bool {
+				c, ok := v.(*ssa.Call)
+				if !ok || !strings.HasSuffix(callName(c.Common()), "ContinuousVestingAccount.LockedCoins") {
+					return false
+				}
+				a := c.Common().Args
+				return isBlockTime(a[len(a)-1])
 			}
-		}
-	}
-	lteEdges := boolCallEdges(unlock, func(c *ssa.Call) bool {
-		a := c.Common().Args
-		if lockedCall == nil || len(a) != 2 {
-			return false
-		}
-		switch {
-		case strings.HasSuffix(callName(c.Common()), "types.Coins.IsAllLTE"):
-			return a[0] == ssa.Value(unlP) && a[1] == ssa.Value(lockedCall)
-		case strings.HasSuffix(callName(c.Common()), "types.Coins.IsAllGTE"):
-			// locked.IsAllGTE(amount) is the SDK's own definition of amount.IsAllLTE(locked)
-			return a[1] == ssa.Value(unlP) && a[0] == ssa.Value(lockedCall)
-		}
-		return false
-	}, true)
-	// type assertion ok edge
-	var okVals []ssa.Value
-	for _, b := range unlock.Blocks {
-		for _, in := range b.Instrs {
-			if ta, ok := in.(*ssa.TypeAssert); ok && ta.CommaOk && strings.HasSuffix(typeString(ta.AssertedType), "vesting/types.ContinuousVestingAccount") {
-				for _, ref := range *ta.Referrers() {
-					if ex, ok := ref.(*ssa.Extract); ok && ex.Index == 1 {
-						okVals = append(okVals, ex)
+			return boolCallEdges(fn, func(c *ssa.Call) bool {
+				a := c.Common().Args
+				if len(a) != 2 {
+					return false
+				}
+				switch {
+				case strings.HasSuffix(callName(c.Common()), "types.Coins.IsAllLTE"):
+					return isVal(a[0]) && isLocked(a[1])
+				case strings.HasSuffix(callName(c.Common()), "types.Coins.IsAllGTE"):
+					// locked.IsAllGTE(amount) is the SDK's own definition of amount.IsAllLTE(locked)
+					return isVal(a[1]) && isLocked(a[0])
+				}
+				return false
+			}, true)
+		}}
+	typeSpec := GuardSpec{Name: "account is a ContinuousVestingAccount", ValueFree: true,
+		Edges: func(fn *ssa.Function, bind Bind, isVal func(ssa.Value) bool) []Edge {
+			var out []Edge
+			for _, b := range fn.Blocks {
+				for _, in := range b.Instrs {
+					if ta, ok := in.(*ssa.TypeAssert); ok && ta.CommaOk && strings.HasSuffix(typeString(ta.AssertedType), "vesting/types.ContinuousVestingAccount") {
+						for _, ref := range *ta.Referrers() {
+							if ex, ok := ref.(*ssa.Extract); ok && ex.Index == 1 {
+								out = append(out, boolValueEdges(fn, ex, true)...)
+							}
+						}
 					}
 				}
 			}
-		}
-	}
-	var typeEdges []Edge
-	for _, v := range okVals {
-		typeEdges = append(typeEdges, boolValueEdges(unlock, v, true)...)
-	}
+			return out
+		}}
+	lteEdges, _ := cg.guardEdgesIn(unlock, Bind{}, lteSpec, 0)
+	typeEdges, _ := cg.guardEdgesIn(unlock, Bind{}, typeSpec, 0)
 	nmod := 0
 	nred := 0
-	for _, fs := range FieldStores(unlock) {
-		if fs.Struct == nil || fs.Struct.Obj().Pkg() == nil || !strings.Contains(fs.Struct.Obj().Pkg().Path(), "x/auth/") {
-			continue
-		}
+	for _, sb := range w.storesBelowP(unlock, func(fs FieldStore) bool {
+		return fs.Struct != nil && fs.Struct.Obj().Pkg() != nil && strings.Contains(fs.Struct.Obj().Pkg().Path(), "x/auth/")
+	}, 2, nil) {
+		fs := sb.FS
 		nmod++
 		construct := fmt.Sprintf("unlock: store to %s.%s", fs.Struct.Obj().Name(), fs.Field)
-		r.Check(MustPass(unlock, lteEdges, fs.Store.Block()), "C07.guard", construct+" only when amount <= locked(now)", w.Pos(fs.Store.Pos()), "dominated by the true edge of amount.IsAllLTE(LockedCoins(blockTime))", "the sender's vesting can be reduced by more than is locked and undelegated")
-		r.Check(MustPass(unlock, typeEdges, fs.Store.Block()), "C07.guard", construct+" only for a ContinuousVestingAccount", w.Pos(fs.Store.Pos()), "dominated by the ok edge of the type assertion", "the account is modified without the type test")
+		r.Check(MustPass(unlock, lteEdges, sb.Top().Block()), "C07.guard", construct+" only when amount <= locked(now)", w.Pos(fs.Store.Pos()), "dominated by the true edge of amount.IsAllLTE(LockedCoins(blockTime))", "the sender's vesting can be reduced by more than is locked and undelegated")
+		r.Check(MustPass(unlock, typeEdges, sb.Top().Block()), "C07.guard", construct+" only for a ContinuousVestingAccount", w.Pos(fs.Store.Pos()), "dominated by the ok edge of the type assertion", "the account is modified without the type test")
 		okW := fs.Field == "OriginalVesting"
 		if okW {
 			// value: OriginalVesting.Sub(...)
@@ -181,16 +186,12 @@ func checkC07(w *World, r *Report) {
 	if nmod == 0 {
 		r.Bad("C07.writes", "unlock reduces OriginalVesting", w.Pos(unlock.Pos()), "no store to the sender's account found")
 	}
-	for _, s := range cg.Sites[unlock] {
-		if cg.Atom(s) == AuthSet {
-			r.Check(MustPass(unlock, lteEdges, s.Instr.Block()) && MustPass(unlock, typeEdges, s.Instr.Block()), "C07.guard", "unlock: SetAccount only after both guards", w.Pos(s.Instr.Pos()), "dominated by the amount and type guards", "the sender's account is stored without the guards")
-			// the account read is the owner's
-			for _, g := range cg.Sites[unlock] {
-				if cg.Atom(g) == AuthGet && g.Method == "GetAccount" {
-					a := g.Args()
-					r.Check(a[len(a)-1] == ssa.Value(ownP), "C07.guard", "unlock: the account modified is the owner's", w.Pos(g.Instr.Pos()), "GetAccount(ownerAddress)", "another account than the owner's is modified")
-				}
-			}
+	for _, e := range w.effectsBelow(unlock, func(s *Site) bool { return cg.Atom(s) == AuthSet }, 2) {
+		r.Check(MustPass(unlock, lteEdges, e.Top().Block()) && MustPass(unlock, typeEdges, e.Top().Block()), "C07.guard", "unlock: SetAccount only after both guards", w.Pos(e.Site.Instr.Pos()), "dominated by the amount and type guards", "the sender's account is stored without the guards")
+		// the account read is the owner's
+		for _, g := range w.effectsBelow(unlock, func(s *Site) bool { return cg.Atom(s) == AuthGet && s.Method == "GetAccount" }, 2) {
+			a := g.RootArgs()
+			r.Check(a[len(a)-1] == ssa.Value(ownP), "C07.guard", "unlock: the account modified is the owner's", w.Pos(g.Site.Instr.Pos()), "GetAccount(ownerAddress)", "another account than the owner's is modified")
 		}
 	}
 
@@ -202,13 +203,16 @@ func checkC07(w *World, r *Report) {
 			r.Unk("infra.anchor", anchor, "", "anchor not found")
 			continue
 		}
-		for _, s := range cg.Sites[h] {
-			if !calleeIs(s, "x/cfevesting/keeper.msgServer.splitVestingCoins") {
-				continue
-			}
-			a := s.Args()
+		// the split may be reached through a helper shared by the handlers: arguments in the handler's terms
+		for _, e := range w.effectsBelow(h, func(s *Site) bool { return calleeIs(s, "x/cfevesting/keeper.msgServer.splitVestingCoins") }, 2) {
+			s := e.Site
+			a := e.RootArgs()
 			amt := a[len(a)-1]
 			from := a[1]
+			if isDetached(amt) || isDetached(from) {
+				r.Unk("C07.move", funcName(h)+": amount handed to the split", w.Pos(s.Instr.Pos()), "the amount is computed inside a helper between the handler and the split: not traced")
+				continue
+			}
 			o := tr.Origins(amt)
 			lcs := o.CallsNamed("BankKeeper.LockedCoins")
 			ok := len(lcs) >= 1
